@@ -76,6 +76,17 @@ func VerifC04LogsItems() {
 	vc04CheckLogs(res, in, maxSize, sz, "logs-items")
 	if len(res) > 1 {
 		vReach("split")
+		// what the batcher does next: the last part (the remainder, possibly below min_size) is parked
+		// and the next request is merged into it — a second MergeSplit, on a request produced by a split
+		if vParam("second") == 1 && r2 == nil {
+			rem := res[len(res)-1].(*logsRequest)
+			in2 := vc04FlattenLogs(rem.ld)
+			ld3, in3 := vc04BuildLogs("c", &id, 1, false, 0)
+			res2, err2 := rem.MergeSplit(context.Background(), maxSize, RequestSizerTypeItems, newLogsRequest(ld3))
+			vAssert(err2 == nil, "logs-items/second/no-error")
+			vc04CheckLogs(res2, append(in2, in3...), maxSize, sz, "logs-items/second")
+			vReach("second")
+		}
 	}
 	vReach("end")
 }
